@@ -367,4 +367,110 @@ end Demo
 
 end AppRun
 
+/-! ## Surplus arguments of a command with lenient args parsing
+
+A command configured with `enable_lenient_args_parsing()` accepts more arguments than its format has
+(`_parse_argument`: "unexpected argument", skipped when lenient).  The global switches may stand BEHIND such a
+surplus argument; the parser reaches them with an unchanged state.  The composed model gets the leniency of every
+command from the real application (`Cmd.lenient`), and `c09.app_run` compares such lines on every run. -/
+section LenientSurplus
+open Clikit.App Clikit.Parser Clikit.Resolver Clikit.Help
+
+/-- every argument slot of the format is taken and the last argument is single-valued: a further argument token
+is SURPLUS -/
+def argsFull (fa : List FArg) (σ : St) : Prop :=
+  fa.length ≤ σ.args.length ∧ ∀ a, fa.getLast? = some a → a.multi = false
+
+theorem parseArgument_surplus (fa : List FArg) (tok : Str) (σ : St) (h : argsFull fa σ) :
+    parseArgument fa true tok σ = .ok σ := by
+  obtain ⟨hl, hm⟩ := h
+  unfold parseArgument
+  have h1 : hasArgAt fa (σ.args.length : Int) = false := by
+    simp only [hasArgAt, decide_eq_false_iff_not]; omega
+  simp only [h1]
+  by_cases hc : (decide ((σ.args.length : Int) > 0) && hasArgAt fa ((σ.args.length : Int) - 1)) = true
+  · simp only [hc]
+    simp only [Bool.and_eq_true, decide_eq_true_eq, hasArgAt] at hc
+    have hlen : σ.args.length = fa.length := by omega
+    have hpos : 0 < fa.length := by omega
+    have hget : getArgAt fa ((σ.args.length : Int) - 1) = .ok (fa[fa.length - 1]'(by omega)) := by
+      unfold getArgAt
+      have : ¬ ((σ.args.length : Int) - 1 ≥ (fa.length : Int)) := by omega
+      have h0 : ((σ.args.length : Int) - 1 ≥ 0) := by omega
+      have ht : ((σ.args.length : Int) - 1).toNat = fa.length - 1 := by omega
+      rw [if_neg this, if_pos h0, ht, List.getElem?_eq_getElem (show fa.length - 1 < fa.length by omega)]
+    rw [hget]
+    have := hm (fa[fa.length - 1]'(by omega)) (by rw [List.getLast?_eq_getElem?, List.getElem?_eq_getElem])
+    simp [this]
+  · have hc' : (decide ((σ.args.length : Int) > 0) && hasArgAt fa ((σ.args.length : Int) - 1)) = false := by
+      simpa using hc
+    rw [hc']; simp
+
+/-- a word: a non-empty token that does not start with `-` -/
+def isWord : Str → Bool
+  | [] => false
+  | c :: _ => c != '-'
+
+theorem step_surplus (f : Fmt) (tok : Str) (rest : List Str) (po : Bool) (σ : St)
+    (hw : isWord tok = true) (h : argsFull f.fargs σ) :
+    step f true tok rest po σ = .ok (σ, rest, po) := by
+  match tok, hw with
+  | c :: cs, hw =>
+    have hc : (c == '-') = false := by simpa [isWord] using hw
+    have hc' : c ≠ '-' := by simpa using hc
+    have e1 : ((c :: cs) == ([] : Str)) = false := by simp
+    have e2 : ((c :: cs) == ['-', '-']) = false := by simp [hc']
+    have e3 : ((c :: cs).take 2 == ['-', '-']) = false := by
+      cases cs <;> simp [hc']
+    have e4 : shortTest po (c :: cs) = .ok false := by
+      cases po <;> simp [shortTest, hc]
+    simp only [step, e1, e2, e3, e4, Bool.and_false, parseArgument_surplus _ _ _ h]
+    simp
+
+/-- **A surplus argument of a lenient command is skipped and the rest of the line is parsed as if it were not
+there**: when the token loop of the parser (lenient mode) pops a word while every argument slot is taken, it
+continues with the remaining tokens in the SAME state - so every switch behind the surplus argument is parsed
+exactly as it would be without it (in particular `-V` / `--version` sets the version option) -/
+theorem lenient_surplus_skipped (f : Fmt) (n : Nat) (tok : Str) (rest : List Str) (po : Bool) (σ : St)
+    (hw : isWord tok = true) (h : argsFull f.fargs σ) :
+    loop f true (n + 1) (tok :: rest) po σ = loop f true n rest po σ := by
+  simp only [loop, step_surplus f tok rest po σ hw h]
+
+/-- any number of surplus arguments in a row -/
+theorem lenient_surplus_run_skipped (f : Fmt) (n : Nat) (ws rest : List Str) (po : Bool) (σ : St)
+    (hw : ∀ w ∈ ws, isWord w = true) (h : argsFull f.fargs σ) :
+    loop f true (n + ws.length) (ws ++ rest) po σ = loop f true n rest po σ := by
+  induction ws with
+  | nil => rfl
+  | cons w ws ih =>
+    have := lenient_surplus_skipped f (n + ws.length) w (ws ++ rest) po σ (hw w (by simp)) h
+    simp only [List.length_cons, List.cons_append, ← Nat.add_assoc] at this ⊢
+    rw [this]
+    exact ih (fun x hx => hw x (by simp [hx]))
+
+section LenientDemo
+open Clikit.App.Demo Clikit.Help
+
+/-- `server` of the demo application, configured with `enable_lenient_args_parsing()` -/
+def cServerLenient : Cmd :=
+  .mk (S "server") [S "srv"] false false
+    { cmds := [{ name := S "server", aliases := [S "srv"] }], args := [], opts := globals } true []
+def appLenient : List Cmd := [cHelp, cServerLenient]
+
+/-- `server extra more -V`: the surplus arguments are skipped, the version switch behind them answers (status 0,
+no handler) - as for `server -V` -/
+example : (runApp env cv appLenient hs [S "server", S "extra", S "more", S "-V"]).what = .version ∧
+    (runApp env cv appLenient hs [S "server", S "extra", S "more", S "-V"]).status = some 0 ∧
+    (runApp env cv appLenient hs [S "server", S "extra", S "more", S "-V"]).invoked = [] := by decide +kernel
+/-- ... and `-q` between two surplus arguments makes the run quiet, the handler of `server` runs -/
+example : (runApp env cv appLenient hs [S "server", S "extra", S "-q", S "more"]).io.quiet = true ∧
+    (runApp env cv appLenient hs [S "server", S "extra", S "-q", S "more"]).invoked.map (·.1) = [[S "server"]] := by
+  decide +kernel
+/-- the same line on the strict command is an error: nothing runs -/
+example : (runApp env cv app hs [S "server", S "extra", S "-V"]).what = .error .cannotParse := by decide +kernel
+
+end LenientDemo
+
+end LenientSurplus
+
 end Clikit.Props.C09
